@@ -50,8 +50,8 @@ func mask(w int) uint64 {
 }
 
 func (tt *TermTable) BV(w int, v uint64) *Term { return tt.mk("const", w, v&mask(w), "") }
-func (tt *TermTable) True() *Term               { return tt.mk("true", 0, 0, "") }
-func (tt *TermTable) False() *Term              { return tt.mk("false", 0, 0, "") }
+func (tt *TermTable) True() *Term              { return tt.mk("true", 0, 0, "") }
+func (tt *TermTable) False() *Term             { return tt.mk("false", 0, 0, "") }
 func (tt *TermTable) BoolC(b bool) *Term {
 	if b {
 		return tt.True()
